@@ -39,7 +39,7 @@ RULE = (
 )
 EXPLANATION = (
     "pool_accounting / no_duplication (Properties/C11.lean) hold for all histories of the model; conservation "
-    "itself is false on the pinned tree (port_lost_on_cancel, finding F8) and is proved for histories without a "
+    "itself was false on the pinned tree (finding F8, repaired in /repo eb5160b; port_lost_without_cancel_clause keeps the witness) and is now proved for ALL histories incl. a "
     "cancellation inside the start-up.  This run ties Model.PortPool.step to the live server (queue contents with "
     "priorities, session phases, replies, losses) and evaluates the multiset oracle on the implementation alone."
 )
@@ -197,13 +197,20 @@ async def _run_scenario(loop, scn):
         fresh = [r for r in env.log if r["outcome"] == "cancelled" and not r.get("reported")]
         for r in fresh:
             r["reported"] = True
-        losses = sorted(r["port"] for r in fresh)
+        cut_ports = sorted(r["port"] for r in fresh)
+        losses = []
         cancelled = collections.Counter(r["port"] for r in env.log if r["outcome"] == "cancelled")
         # ---- the property, on the implementation's state alone ----
         if pool is not None:
             total = collections.Counter(p for _, p in pool) + held + inflight
             missing = cfg - total
             surplus = total - cfg
+            # a start-up cut during this event LOST its port iff the port is not back (pool, held or in flight)
+            short = collections.Counter(missing)
+            for p_ in cut_ports:
+                if short[p_] > 0:
+                    short[p_] -= 1
+                    losses.append(p_)
             if surplus:
                 fails.append(("C11:port-duplicated-or-foreign", "pool %r + held %r + starting %r has %r more than configured %r" % (pool, dict(held), dict(inflight), dict(surplus), ports)))
             elif missing:
@@ -224,6 +231,7 @@ async def _run_scenario(loop, scn):
                 "model": model_lines,
                 "reply": reply,
                 "losses": losses,
+                "cuts": cut_ports,
                 "pool": pool,
                 "phases": phases,
                 "fails": [{"signature": a, "what": b, "at": idx} for a, b in fails],
@@ -366,13 +374,13 @@ async def _run_scenario(loop, scn):
                 if kind == "quit":
                     s.raw.send("QUIT")
                 elif kind == "epsvarg":
-                    s.raw.send("EPSV 1")  # 522 and `return False`: the handler ends the session
+                    s.raw.send("EPSV 1")  # 522; whether the handler then ends the session is the model's call (generated closing codes)
                 elif kind == "close":
                     s.raw.close()
                 else:
                     s.raw.vanish()
                 await loop.settle()
-                observe(idx, ev, ["pool ev finish %d" % sid], "none", n_log0)
+                observe(idx, ev, ["pool ev %s %d" % ("epsvarg" if kind == "epsvarg" else "finish", sid)], "none", n_log0)
             else:
                 raise ValueError("unknown event %r" % (ev,))
         # wind down: every remaining session leaves in turn (a suspended one by reset), then quiescence
@@ -662,7 +670,7 @@ def _run(ctx, scns, do_compare=True):
                 res.count("pasv_reply=" + o["reply"])
             if any(ph.startswith("s") for ph in o["phases"]):
                 res.count("quiescent_points_with_suspended_startup")
-            if o["losses"]:
+            if o.get("cuts"):
                 gate_cut = True
                 res.count("cut_inside_startup=" + o["ev"][0])
         for e in scn["events"]:
